@@ -17,7 +17,11 @@ type chH struct {
 }
 
 func newChH(ctx context.Context, ctxid int, prefill ...int) chH {
-	src := make(chan int, 8)
+	n := 8
+	if len(prefill) > n {
+		n = len(prefill)
+	}
+	src := make(chan int, n)
 	for _, v := range prefill {
 		src <- v
 	}
@@ -255,6 +259,8 @@ func init() {
 		Opts: vrt.Options{Delay: true}, Run: chSeqN(7, 5), Check: channelCheck})
 	vrt.Register(&vrt.Scenario{Name: "H-conc", Props: []string{"C13", "C11:race", "C12:goroutine-leak,close-"}, Quick: 3, Thorough: 5,
 		Desc: "T1: Get Get Commit, T2: Rollback Get, T3: Buffer - concurrently on one Channel", Opts: vrt.Options{Delay: true}, Run: chConc(false), Check: channelCheck})
+	vrt.Register(&vrt.Scenario{Name: "H-conc-pu", Props: []string{"C13"}, Quick: 3, Thorough: 4,
+		Desc: "H-conc with an extra scheduling point right after every Unlock: what a call does after leaving its critical section (e.g. copying a snapshot) is interleaved with the other calls", Opts: vrt.Options{Delay: true, PostUnlock: true}, Run: chConc(false), Check: channelCheck})
 	vrt.Register(&vrt.Scenario{Name: "H-conc-close", Props: []string{"C13", "C11:race", "C12:goroutine-leak,close-"}, Quick: 3, Thorough: 5,
 		Desc: "same with a concurrent Close", Opts: vrt.Options{Delay: true}, Run: chConc(true), Check: channelCheck})
 	vrt.Register(&vrt.Scenario{Name: "H-poll", Props: []string{"C13", "C11:race", "C12:goroutine-leak,close-"}, Quick: 2, Thorough: 3,
@@ -292,4 +298,44 @@ func init() {
 	vrt.Register(&vrt.Scenario{Name: "H-done", Props: []string{"C13", "C11:race", "C12:goroutine-leak,close-"}, Quick: 3, Thorough: 5,
 		Desc: "two Gets racing Close while a third thread waits for Done and then inspects the source: nothing may be taken once Done is closed",
 		Opts: vrt.Options{Delay: true}, Run: chDone, Check: channelCheck})
+}
+
+// H-big: transactions much longer than the small sequences: a values taken, Rollback, b of them
+// re-read, Commit (in the middle of the replay), Buffer, the rest re-read, Commit, two more values -
+// for a in {17, 20, 33} and b in {1, 2, a-1}: beyond any small-capacity special case of the pending
+// buffer (growth, re-slicing, shrinking).
+func chBig() {
+	var pre []int
+	for i := 1; i <= 36; i++ {
+		pre = append(pre, i)
+	}
+	h := newChH(nil, 0, pre...)
+	a := []int{17, 20, 33}[vrt.Choose(3, 0)]
+	b := []int{1, 2, a - 1}[vrt.Choose(3, 0)]
+	for i := 0; i < a; i++ {
+		h.get(0, nil)
+	}
+	h.buffer()
+	h.rollback()
+	for i := 0; i < b; i++ {
+		h.get(0, nil)
+	}
+	h.commit()
+	h.buffer()
+	for i := 0; i < a-b; i++ {
+		h.get(0, nil)
+	}
+	h.rollback()
+	h.get(0, nil)
+	h.commit()
+	h.buffer()
+	h.get(0, nil)
+	h.get(0, nil)
+	h.finish()
+}
+
+func init() {
+	vrt.Register(&vrt.Scenario{Name: "H-big", Props: []string{"C13"}, Quick: 0, Thorough: 1,
+		Desc: "long transactions (17-33 values taken, rollback, partial re-read, commit in the middle of the replay, rollback again, ...) against the model",
+		Opts: vrt.Options{Delay: true}, Run: chBig, Check: channelCheck})
 }
